@@ -290,6 +290,32 @@ func Settle(timeout time.Duration) bool {
 	}
 }
 
+// ActiveGoroutines returns the header and first frames of every goroutine
+// that is not parked (diagnostics for a Settle that timed out).
+func ActiveGoroutines() string {
+	dump, _ := allBlocked(false)
+	var out []string
+	first := true
+	for _, g := range strings.Split(dump, "\n\n") {
+		if first {
+			first = false
+			continue
+		}
+		line := g
+		if i := strings.IndexByte(g, '\n'); i >= 0 {
+			line = g[:i]
+		}
+		if activeState.MatchString(line) || sleepState.MatchString(line) {
+			l := strings.Split(g, "\n")
+			if len(l) > 7 {
+				l = l[:7]
+			}
+			out = append(out, strings.Join(l, " | "))
+		}
+	}
+	return strings.Join(out, " || ")
+}
+
 // AllBlocked returns the full goroutine dump and whether every goroutine other
 // than the caller is in a blocked state.
 func AllBlocked() (string, bool) { return allBlocked(true) }
@@ -717,7 +743,12 @@ func parentMain(spec *Spec) int {
 		bySig[v.Sig] = append(bySig[v.Sig], v)
 	}
 	sort.Strings(sigs)
-	os.MkdirAll(filepath.Join(vd, "replays"), 0o755)
+	replayDir := filepath.Join(vd, "replays")
+	if os.Getenv("VERIF_NO_EVIDENCE") != "" {
+		// runs against scratch copies (regression testing) keep their witnesses apart
+		replayDir = filepath.Join(vd, "work", "replays-scratch")
+	}
+	os.MkdirAll(replayDir, 0o755)
 	unlisted := 0
 	out := bufio.NewWriter(os.Stdout)
 	for _, sig := range sigs {
@@ -730,7 +761,7 @@ func parentMain(spec *Spec) int {
 		unlisted++
 		h := fnv.New32a()
 		h.Write([]byte(sig))
-		rp := filepath.Join(vd, "replays", fmt.Sprintf("%s-%s-%d-%08x.json", spec.Property, tier, seed, h.Sum32()))
+		rp := filepath.Join(replayDir, fmt.Sprintf("%s-%s-%d-%08x.json", spec.Property, tier, seed, h.Sum32()))
 		rb, _ := json.MarshalIndent(map[string]any{
 			"property_id": spec.Property, "tier": tier, "seed": seed, "workers": workers,
 			"signature": sig, "worker": vs[0].Worker, "group": vs[0].Group, "case_index": vs[0].Index,
